@@ -49,6 +49,9 @@ type pkgFacts struct {
 // field name such as "mutex" is qualified by the receiver's type
 var curRecvName, curRecvType string
 
+// names of the package-level (receiver-less) functions of the package being analysed
+var pkgFuncs = map[string]bool{}
+
 func mutexName(e ast.Expr) string {
 	// X.mu, o.rpcMutex, db.cacheMutex, t.mutex, r.mutex ...
 	if s, ok := e.(*ast.SelectorExpr); ok {
@@ -101,6 +104,12 @@ func (h *heldSet) remove(m string) {
 }
 
 func (w *walker) call(c *ast.CallExpr, h *heldSet, deferred bool) {
+	// a call of a package-level function of this package (hasMonitors(db), waitForCacheConsistent(...))
+	if id, ok := c.Fun.(*ast.Ident); ok && pkgFuncs[id.Name] && !deferred {
+		w.f.calls[id.Name] = true
+		w.f.callHeld = append(w.f.callHeld, callSite{id.Name, append([]string{}, h.locks...), w.f.name + " " + w.pos(c)})
+		return
+	}
 	sel, ok := c.Fun.(*ast.SelectorExpr)
 	if !ok {
 		return
@@ -230,6 +239,16 @@ func analysePkg(dir string) (*pkgFacts, error) {
 		return nil, err
 	}
 	pf := &pkgFacts{fns: map[string]*fn{}}
+	pkgFuncs = map[string]bool{}
+	for _, p := range pkgs {
+		for _, file := range p.Files {
+			for _, d := range file.Decls {
+				if fd, ok := d.(*ast.FuncDecl); ok && fd.Recv == nil {
+					pkgFuncs[fd.Name.Name] = true
+				}
+			}
+		}
+	}
 	for _, p := range pkgs {
 		var files []string
 		for name := range p.Files {
